@@ -85,7 +85,7 @@ Qed.
 Theorem timeout_handlers_reset : forallb (forallb resets_before_notify) nonempty_chains = true.
 Proof. exact chains_timeouts_reset. Qed.
 
-(* no entry point other than the known `get_<representation>` and `linear_partition` families stores the address of a
+(* no entry point other than the known `get_<representation>` family stores the address of a
    temporary / local through an output parameter (facts: g++ -Wdangling-pointer=2 on the regenerated sources, plus the
    translator's syntactic rule `*out = ... &local ...`) *)
 Theorem no_dangling_outputs_partial : forall n, In n dangling_outputs -> exempt_getter n = true.
